@@ -95,7 +95,11 @@ async def _park(kind):
     ctl = CURRENT["controller"]
     if ctl is None:
         return _NOVALUE
-    fut = ctl.loop.create_future()
+    ctl.loop._pyvc_internal = True
+    try:
+        fut = ctl.loop.create_future()
+    finally:
+        ctl.loop._pyvc_internal = False
     fut._pyvc_kind = kind
     v = await fut
     return _NOVALUE if v is True else v
@@ -354,6 +358,7 @@ class wrap_callees:
                         finally:
                             rec.depth -= 1
                         rec.add((name, self_, tuple(a), dict(k)))
+                        rec.add(("ret", name, r))
                         return r
                 w.__wrapped_raw__ = raw
                 return w
